@@ -50,6 +50,9 @@ CHECKS = {
  'C16': dict(cat='model_checking', engine='cbmc', technique='CBMC bounded model checking of enumerated lifecycle scripts through the real program/compiler/code/executor TUs with a stub back end; pointer checks (use-after-free, double free) and --memory-leak-check decide each script for all emitted sizes/bytes',
              text='Every enumerated sequence of compile / take_code / reset / recompile / run / emulate / free releases each resource exactly once, taken code stays valid after orc_program_free, no allocation is left behind.',
              note='operation names enumerated (quick 18 scripts x 2 configurations; thorough all sequences <=3); ghost code-chunk allocator; real x86 back ends outside.', ref='DESIGN.md#c16'),
+ 'C05': dict(cat='model_checking', engine='cbmc+irsym', technique='CBMC on the real table/loop functions (loop-shift selection with unwinding assertion, variable declaration limits at enumerated fill levels, compile result classification with a stub back end) and symbolic execution (irsym, LLVM IR) of the real front half of the compiler on programs at and beyond the load/store expansion limits',
+             text='Termination and value of the loop-shift selection for every register/variable size; no table is written past its capacity and overruns are refused with an error; every result code is classified and fatal/non-fatal/successful results leave the stated state.',
+             note='whole x86/NEON/MIPS/Altivec back ends are outside (the C01 family is compiled concretely with a watchdog); irsym detects out-of-bounds per object, member-to-member overflow through post-state invariants.', ref='DESIGN.md#c05'),
 }
 
 NOT_APPLICABLE = {
